@@ -526,6 +526,7 @@ class Engine:
             self._restore_invariants(out)
         if self.index_pointer_walks:
             self._index_pointer_walks(out)
+        self._exact_exits(out)
         # a path whose conditions have become false by what the passes above established (a status that is invariantly
         # 0 tested `< 0`) is not a path of the function
         def dead(p):
@@ -621,6 +622,54 @@ class Engine:
             for k in list(d):
                 if isinstance(k, tuple) and any(x in hs for x in subterms(k)):
                     d.setdefault(S(k), d[k] if not isinstance(d[k], tuple) else S(d[k]))
+
+    def _exact_exits(self, out):
+        """A counter that starts at 0 (or a constant not above the bound), is advanced by exactly one on every back edge
+        and is tested `counter < B` with B untouched by the loop leaves the loop through that test with counter == B -
+        not merely counter >= B.  The equality is added to the exit paths (the havoc of the loop head knows nothing of
+        where the counter came from; this is the inductive fact counter <= B that it forgets)."""
+        steps = {}
+        dead = set()
+        for p in out:
+            if p.end != 'loopback' or not p.loops:
+                continue
+            node, lmap = p.loops[-1]
+            if node is not p.node:
+                continue
+            for k, (h, pre) in lmap.items():
+                if not (isinstance(h, tuple) and h[0] == 'h'):
+                    continue
+                v = mem_read(p.mem, k, h)
+                while isinstance(v, tuple) and v[0] == 'cast':
+                    v = v[2]
+                ok = v == ('+', h, C(1)) or v == ('+', C(1), h)
+                steps[h] = steps.get(h, True) and ok
+        for p in out:
+            for node, lmap in p.loops:
+                hs_all = {h for (h, pre) in lmap.values() if isinstance(h, tuple)}
+                for k, (h, pre) in lmap.items():
+                    if not steps.get(h) or pre is None:
+                        continue
+                    pre0 = pre
+                    while isinstance(pre0, tuple) and pre0[0] == 'cast':
+                        pre0 = pre0[2]
+                    if not is_c(pre0) or pre0[1] < 0:
+                        continue
+                    for c, n_ in list(p.conds):
+                        if c[0] == 'cmp' and c[1] == '<=' and c[3] == h and not any(x in hs_all for x in subterms(c[2])):
+                            B = c[2]
+                            qt = (self.types.get(B) or '').replace('const ', '')
+                            unsigned_b = qt.startswith(('unsigned', 'uint', 'size_t', 'AreaHandle', 'RegisterHandle', 'RegisterOffset', 'RegisterAddress')) or (is_c(B) and B[1] >= pre0[1])
+                            if not (pre0[1] == 0 and unsigned_b) and not (is_c(B) and B[1] >= pre0[1]):
+                                continue
+                            eq = ('cmp', '==', h, B)
+                            if not any(cc == eq for cc, _ in p.conds):
+                                p.conds.append((eq, n_))
+                            # a path that went on under counter != B (or a strict order) after this exit does not exist
+                            if any(cc[0] == 'cmp' and cc[1] in ('!=', '<') and {cc[2], cc[3]} == {h, B} for cc, _ in p.conds):
+                                dead.add(id(p))
+        if dead:
+            out[:] = [p for p in out if id(p) not in dead]
 
     def _index_pointer_walks(self, out):
         """A loop variable of pointer type that starts at a known position and that EVERY iteration moves by exactly one
